@@ -304,6 +304,88 @@ def rule_over(ctx: Ctx) -> RuleReport:
     return rep
 
 
+def _pos_exits(body, guards):
+    """(return True statement, enclosing if-tests) for every positive exit of a detector."""
+    for st in body:
+        if isinstance(st, ast.Return) and isinstance(st.value, ast.Constant) and st.value.value is True:
+            yield st, guards
+        elif isinstance(st, ast.If):
+            yield from _pos_exits(st.body, guards + [st.test])
+            yield from _pos_exits(st.orelse, guards)
+        elif isinstance(st, (ast.For, ast.While, ast.With, ast.Try)):
+            for fld in ("body", "orelse", "finalbody"):
+                yield from _pos_exits(getattr(st, fld, []), guards)
+            for h in getattr(st, "handlers", []):
+                yield from _pos_exits(h.body, guards)
+
+
+FONT_OBFUSCATION = {"http://www.idpf.org/2008/embedding", "http://ns.adobe.com/pdf/enc#RC"}  # EPUB OCF 3 §4.4 / Adobe font mangling: listed in encryption.xml, not DRM
+
+
+def _epub_quantifier(ctx, rep, ep):
+    """encryption.xml: rejected iff some EncryptedData entry is not a font-obfuscation entry."""
+    xmlenc = [n for n in walk_own(ep.node) if isinstance(n, ast.Assign) and len(n.targets) == 1 and isinstance(n.targets[0], ast.Name) and isinstance(n.value, ast.Call)
+              and isinstance(n.value.func, ast.Attribute) and n.value.func.attr in ("findall", "iter", "iterfind") and any(isinstance(a, ast.Constant) and isinstance(a.value, str) and a.value.endswith("xmlenc#}EncryptedData") for a in n.value.args)]
+    if len(xmlenc) != 1:
+        raise AnalysisError("C08-CONST: the EncryptedData entries of encryption.xml are no longer collected in one place in _is_epub_encrypted")
+    L = xmlenc[0].targets[0].id
+    exits = [(st, g) for st, g in _pos_exits(ep.node.body, []) if any(L in {x.id for x in ast.walk(t) if isinstance(x, ast.Name)} for t in g)]
+    if not exits:
+        rep.fail(Finding("C08-CONST", EPUB, ep.qual, "no positive exit on EncryptedData", "_is_epub_encrypted no longer rejects a book whose encryption.xml lists EncryptedData entries"))
+        return
+    for st, guards in exits:
+        conj = [c for t in guards for c in (t.values if isinstance(t, ast.BoolOp) and isinstance(t.op, ast.And) else [t])]
+        g = [t for t in conj if L in {x.id for x in ast.walk(t) if isinstance(x, ast.Name)}]
+        if len(g) > 1:  # `entries and <quantifier over entries>`: the non-emptiness conjunct adds nothing to a quantifier
+            g = [t for t in g if not (isinstance(t, ast.Name) and t.id == L)] or g[:1]
+        t = g[0] if len(g) == 1 else None
+        form = None
+        pred = None
+        if t is not None:
+            neg = False
+            while isinstance(t, ast.UnaryOp) and isinstance(t.op, ast.Not):
+                neg, t = not neg, t.operand
+            if isinstance(t, ast.Name) and t.id == L and not neg:
+                form = "nonempty"
+            elif isinstance(t, ast.Call) and isinstance(t.func, ast.Name) and t.func.id in ("any", "all") and len(t.args) == 1 and isinstance(t.args[0], (ast.GeneratorExp, ast.ListComp)):
+                ge = t.args[0]
+                if len(ge.generators) == 1 and not ge.generators[0].ifs and isinstance(ge.generators[0].iter, ast.Name) and ge.generators[0].iter.id == L:
+                    e, ineg = ge.elt, False
+                    while isinstance(e, ast.UnaryOp) and isinstance(e.op, ast.Not):
+                        ineg, e = not ineg, e.operand
+                    if isinstance(e, ast.Call) and len(e.args) == 1 and isinstance(e.args[0], ast.Name) and isinstance(ge.generators[0].target, ast.Name) and e.args[0].id == ge.generators[0].target.id:
+                        pred = e
+                        # exists-not-P  ==  any(not P)  ==  not all(P)
+                        form = {("any", True, False): "exists-not", ("all", False, True): "exists-not", ("any", False, False): "exists", ("all", True, False): "all-not", ("any", False, True): "none", ("any", True, True): "all", ("all", False, False): "all", ("all", True, True): "exists"}[(t.func.id, ineg, neg)]
+        if form is None:
+            raise AnalysisError(f"C08-CONST: the EncryptedData test `{' and '.join(norm(x) for x in guards)}` of _is_epub_encrypted is not one of the recognised quantifier forms")
+        if form == "nonempty":
+            rep.fail(Finding("C08-CONST", EPUB, ep.qual, "EncryptedData: any entry", "every EncryptedData entry of META-INF/encryption.xml makes the book 'encrypted', including font-obfuscation entries (Algorithm http://www.idpf.org/2008/embedding or http://ns.adobe.com/pdf/enc#RC): a book with embedded obfuscated fonts and plain content documents is rejected as encrypted", line=st.lineno))
+            continue
+        if form != "exists-not":
+            rep.fail(Finding("C08-CONST", EPUB, ep.qual, f"EncryptedData quantifier: {form}", f"the book is rejected when `{short(g[0], 80)}` ({form} entries are font obfuscation); it must be rejected exactly when SOME entry is NOT font obfuscation — a protected book that also lists an obfuscated font is otherwise read as ciphertext", line=st.lineno))
+            continue
+        # the predicate: EncryptionMethod/@Algorithm in the two obfuscation algorithms
+        tgt = [f for f in resolve_call(ctx.p, ep, pred).funcs]
+        if len(tgt) != 1:
+            raise AnalysisError("C08-CONST: the font-obfuscation predicate of _is_epub_encrypted does not resolve to one function")
+        pf = tgt[0]
+        sets = []
+        for n in walk_own(pf.node):
+            if isinstance(n, ast.Compare) and len(n.ops) == 1 and isinstance(n.ops[0], (ast.In, ast.Eq)):
+                vv = ctx.folder.fold(pf.module, n.comparators[0])
+                if isinstance(vv, str):
+                    sets.append({vv})
+                elif isinstance(vv, (set, frozenset, tuple, list)):
+                    sets.append(set(vv))
+        algo = any(isinstance(n, ast.Constant) and n.value == "Algorithm" for n in walk_own(pf.node))
+        meth = any(isinstance(n, ast.Constant) and isinstance(n.value, str) and n.value.endswith("xmlenc#}EncryptionMethod") for n in walk_own(pf.node))
+        if len(sets) == 1 and sets[0] == FONT_OBFUSCATION and algo and meth:
+            rep.ok({"constant": "EPUB font obfuscation algorithms (IDPF embedding, Adobe RC) are the only EncryptedData entries that are not DRM", "quantifier": "rejected iff some entry is not font obfuscation"})
+        else:
+            rep.fail(Finding("C08-CONST", EPUB, pf.qual, "algorithms: " + ",".join(sorted(map(str, set().union(*sets) if sets else []))), "the entries of encryption.xml that do not count as DRM must be exactly those whose EncryptionMethod/@Algorithm is http://www.idpf.org/2008/embedding or http://ns.adobe.com/pdf/enc#RC; any other algorithm (AES, LCP, ADEPT) is real encryption", line=pf.node.lineno))
+
+
 def rule_const(ctx: Ctx) -> RuleReport:
     rep = RuleReport("C08-CONST", "detector constants equal the format specifications")
 
@@ -333,20 +415,7 @@ def rule_const(ctx: Ctx) -> RuleReport:
         chk(_guard_kind(ctx, z, g) == "<zip-flag:1>", "ZIP general purpose bit 0", ARCH, z.qual, norm(g.test), "the ZIP encryption test must mask exactly bit 0 of flag_bits")
     x = ctx.p.func(ENC, "is_xls_encrypted")
     # every positive exit of the record scan is under `record id == 0x002F` and nothing else about the record
-    def pos_exits(body, guards):
-        for st in body:
-            if isinstance(st, ast.Return) and isinstance(st.value, ast.Constant) and st.value.value is True:
-                yield st, guards
-            elif isinstance(st, ast.If):
-                yield from pos_exits(st.body, guards + [st.test])
-                yield from pos_exits(st.orelse, guards)
-            elif isinstance(st, (ast.For, ast.While, ast.With, ast.Try)):
-                for fld in ("body", "orelse", "finalbody"):
-                    yield from pos_exits(getattr(st, fld, []), guards)
-                for h in getattr(st, "handlers", []):
-                    yield from pos_exits(h.body, guards)
-
-    exits = list(pos_exits(x.node.body, []))
+    exits = list(_pos_exits(x.node.body, []))
     if not exits:
         rep.fail(Finding("C08-CONST", ENC, x.qual, "?", "is_xls_encrypted has no positive exit"))
     for st, guards in exits:
@@ -381,6 +450,7 @@ def rule_const(ctx: Ctx) -> RuleReport:
     consts = {n.value for n in walk_own(ep.node) if isinstance(n, ast.Constant) and isinstance(n.value, str)}
     chk("META-INF/encryption.xml" in consts and "META-INF/rights.xml" in consts and any("xmlenc#}EncryptedData" in c for c in consts), "EPUB encryption.xml EncryptedData / rights.xml", EPUB, ep.qual,
         ",".join(sorted(consts))[:100], "EPUB DRM is recognised by EncryptedData in META-INF/encryption.xml or META-INF/rights.xml")
+    _epub_quantifier(ctx, rep, ep)
     # detectors return a boolean on every path and never raise the encrypted error themselves on a negative probe
     for fn in ("is_ooxml_encrypted", "is_odf_encrypted", "is_xls_encrypted", "is_ppt_encrypted"):
         f = ctx.p.func(ENC, fn)
